@@ -330,7 +330,35 @@ def _after_r121(ctx, c, ci, G, isG):
     p = rs.args.args[1].arg
     b = body_of(rs)
     ok = len(b) == 1 and unparse(b[0]) == f'self.{G}.setstate({p})'
-    ctx.ob('R12.4', f'{c}.restore_state', ok, sample=f'{c}.restore_state: {[short(s) for s in b]}')
+    if not ok:
+        # by path summaries: refusals may come first; every accepting path hands the given state -- the parameter itself, or a value built from
+        # it and nothing else (tuple / list conversions of its parts) -- to setstate exactly once, and writes no field of the stream
+        from ..pathsum import PathSum, Unsupported as _U4
+        try:
+            outs = [o for o in PathSum(prog, c, rs, {}, assume_validated=True, opaque_loops=True).run() if o.kind != 'raise']
+            good = bool(outs)
+            for o in outs:
+                sets_ = [k for k in o.calls if isinstance(k.func, ast.Attribute) and k.func.attr == 'setstate' and isG(k.func.value)]
+                others = [k for k in o.calls if k not in sets_ and not (isinstance(k.func, ast.Name) and k.func.id in ('tuple', 'list', 'int', 'float', 'len', 'isinstance', 'type'))
+                          and not (isinstance(k.func, ast.Name) and k.func.id.endswith(('Error', 'Exception')))]
+                def pure_helper(k):
+                    """self.m(..) / Cls.m(..) of a method of this class that stores nothing and calls nothing but constructors of errors / builtins"""
+                    if not (isinstance(k.func, ast.Attribute) and unparse(k.func.value) in ('self', c, 'type(self)')):
+                        return False
+                    r_ = prog.resolve(c, k.func.attr)
+                    if not r_ or r_[1] is None:
+                        return False
+                    return not any((isinstance(x, (ast.Attribute, ast.Subscript)) and isinstance(x.ctx, (ast.Store, ast.Del)) and not isinstance(x.value, ast.Name))
+                                   or (isinstance(x, ast.Attribute) and isinstance(x.ctx, ast.Store) and unparse(x.value) in ('self', 'cls', c))
+                                   or isinstance(x, (ast.Global, ast.Nonlocal)) for x in ast.walk(r_[1]))
+                others = [k for k in others if not pure_helper(k)]
+                names = {x.id for k in sets_ for a_ in k.args for x in ast.walk(a_) if isinstance(x, ast.Name)} - {'tuple', 'list', 'int', 'float', 'len', 'self', c}
+                if len(sets_) != 1 or others or o.store or not (names and all(nm == p or nm.startswith('__loop') for nm in names)):
+                    good = False
+            ok = good
+        except _U4:
+            pass
+    ctx.ob('R12.4', f'{c}.restore_state', ok, sample=f'{c}.restore_state: {[short(s) for s in b][:3]}')
     if not ok:
         ctx.finding('R12.4', f'{c}.restore_state', ci, rs, f'restore_state must call self.{G}.setstate({p}) and nothing else', where=f'{c}.restore_state')
 
